@@ -1,6 +1,7 @@
 package zzharness
 
 import (
+	"context"
 	"fmt"
 	"sort"
 	"strings"
@@ -8,6 +9,7 @@ import (
 	"time"
 
 	hydrapb "github.com/hydraide/hydraide/sdk/go/hydraidego/v3/hydraidepbgo"
+	"github.com/hydraide/hydraide/app/name"
 	"github.com/hydraide/hydraide/app/zzsim/simdisk"
 	"github.com/hydraide/hydraide/app/zzsim/simrt"
 )
@@ -67,7 +69,11 @@ func genC16(seed uint64, tier string, prop string) Case {
 		for s := 0; s < steps; s++ {
 			w := waits[r.intn(len(waits))]
 			sw := int64(r.intn(int(nsw)))
-			switch r.pick(10, 4, 2, 1, 2, 3) {
+			switch r.pick(10, 4, 2, 1, 2, 3, 3) {
+			case 6:
+				// a request whose context is already cancelled (or expires within a few simulated ms) when it reaches
+				// the server: it gives up while summoning the swamp
+				c.Ops = append(c.Ops, Op{C: cl, K: "getx", A: []int64{w, sw, int64(r.intn(3))}})
 			case 5:
 				// write a key again that was removed earlier in this run (a new life of the same key)
 				c.Ops = append(c.Ops, Op{C: cl, K: "reset", A: []int64{w, sw, int64(r.intn(8))}})
@@ -83,6 +89,48 @@ func genC16(seed uint64, tier string, prop string) Case {
 				c.Ops = append(c.Ops, Op{C: cl, K: "get", A: []int64{w, sw, int64(r.intn(8))}})
 			}
 		}
+	}
+	if prop == "C18" && r.chance(1, 3) {
+		// summon storm at the hydra API: several goroutines summon one swamp that is not loaded, some with a
+		// context that is already cancelled; every instance handed out must be the same object
+		c.Cfg["storm"] = 1
+		c.Ops = nil
+		for i := 0; i < 3+r.intn(6); i++ {
+			c.Ops = append(c.Ops, Op{C: i, K: "summon", A: []int64{int64(r.pick(2, 1)), int64(r.intn(3))}})
+		}
+		c.Sched = genSched(r)
+		if c.Sched.PreemptPPM < 30_000 {
+			c.Sched.PreemptPPM = 150_000
+		}
+		return c
+	}
+	if prop == "C18" && r.chance(1, 2) {
+		// burst shape: the swamp is written once, left alone until it has been idle-evicted, and then every client
+		// fires at the same simulated instant (live and cancelled contexts mixed), so that several summons meet
+		// while the swamp is being loaded again
+		c.Ops = []Op{{C: 0, K: "set", A: []int64{0, 0}}}
+		gap := (c.Cfg["idle"] + 3) * 1000
+		for cl := 0; cl < 2+r.intn(4); cl++ {
+			n := 1 + r.intn(3)
+			for k := 0; k < n; k++ {
+				w := int64(0)
+				if k == 0 {
+					w = gap
+					if cl == 0 {
+						w = gap // client 0 already spent ~0ms on its first set
+					}
+				}
+				kind := []string{"getx", "getx", "set", "get", "getx"}[r.intn(5)]
+				c.Ops = append(c.Ops, Op{C: cl, K: kind, A: []int64{w, 0, int64(r.intn(3))}})
+			}
+		}
+		if c.Sched == nil {
+			c.Sched = genSched(r)
+		}
+		if c.Sched.PreemptPPM < 30_000 {
+			c.Sched.PreemptPPM = 100_000
+		}
+		return c
 	}
 	c.Sched = genSched(r)
 	if r.chance(1, 3) {
@@ -100,7 +148,76 @@ type lifeEv struct {
 	removed    bool // del/shift actually removed the key
 }
 
+// runSummonStorm: C18 at the hydra API.
+func runSummonStorm(t *testing.T, c Case) (res Result) {
+	var got []any
+	stuck := false
+	var disk *simdisk.Disk
+	out := runSim(t, c.Sched, func() {
+		disk = simdisk.New()
+		srv := startServer(disk, 3600, 1)
+		root := &gwClient{srv: srv, island: 1, timeout: 120 * time.Second}
+		root.register("verif/life/*", false, 3600, 1)
+		h := srv.zeus.GetHydra()
+		nm := name.New().Sanctuary("verif").Realm("life").Swamp("storm")
+		var ids []int32
+		for _, op := range c.Ops {
+			op := op
+			ids = append(ids, simrt.GoID(func() {
+				for k := int64(0); k <= op.A[1]; k++ {
+					ctx, cancel := context.WithCancel(context.Background())
+					if op.A[0] == 1 {
+						cancel()
+					}
+					sw, err := h.SummonSwamp(ctx, 1, nm)
+					cancel()
+					if err == nil && sw != nil {
+						got = append(got, sw)
+					}
+				}
+			}))
+		}
+		if !simrt.JoinIDs(ids, 5*time.Minute) {
+			stuck = true
+		}
+	})
+	res.SimNanos, res.TraceHash, res.PreemptSteps = out.stats.SimNanos, out.stats.Hash, out.stats.PreemptSteps
+	res.count("summon_storm_runs", 1)
+	fail := func(x Result) Result {
+		x.TraceHash, x.PreemptSteps, x.SimNanos, x.Counters = res.TraceHash, res.PreemptSteps, res.SimNanos, res.Counters
+		return x
+	}
+	if out.rootPanic != "" {
+		return fail(violation("harness_panic", "root: %s", out.rootPanic))
+	}
+	if out.escaped != "" {
+		return fail(violation("server_goroutine_panic", "%s", oneLine(out.escaped, 400)))
+	}
+	if out.aborted || out.stats.OverBudget {
+		return Result{Verdict: "inconclusive", Detail: "scheduler budget exhausted"}
+	}
+	if stuck {
+		return fail(violation("summon_never_returns", "a SummonSwamp call had not returned after 5 simulated minutes"))
+	}
+	maxLive := simrt.ProbeMax("swamp_live:verif/life/storm")
+	if maxLive > 1 {
+		return fail(violation("two_live_instances", "verif/life/storm reached %d constructed-but-not-closed swamp objects at once during concurrent summons", maxLive))
+	}
+	for i := range got {
+		if got[i] != got[0] {
+			return fail(violation("summoners_got_different_instances", "concurrent SummonSwamp calls for one name returned different objects"))
+		}
+	}
+	res.Verdict = "ok"
+	res.Nontrivial = len(got) > 1 && out.stats.Preemptions > 0
+	res.Fingerprint = fnv(out.stats.Hash, len(c.Ops))
+	return res
+}
+
 func runC16(t *testing.T, c Case) (res Result) {
+	if c.cfg("storm", 0) == 1 {
+		return runSummonStorm(t, c)
+	}
 	wi := c.cfg("write_interval", 1)
 	idle := c.cfg("idle", 1)
 	swamps := []string{"verif/life/one", "verif/life/two"}
@@ -225,6 +342,20 @@ func runC16(t *testing.T, c Case) (res Result) {
 							e.removed = err == nil
 							done = true
 						})
+					case "getx":
+						ctx, cancel := context.WithCancel(context.Background())
+						if op.A[2] == 0 {
+							cancel()
+						} else {
+							ctx, cancel = context.WithTimeout(context.Background(), time.Duration(op.A[2])*time.Millisecond)
+						}
+						e.call = simrt.EventSeq()
+						rid = simrt.GoID(func() {
+							defer cancel()
+							srv.gw.Get(ctx, &hydrapb.GetRequest{Swamps: []*hydrapb.GetSwamp{{IslandID: 1, SwampName: sw, Keys: []string{"any"}}}})
+							srv.gw.GetAll(ctx, &hydrapb.GetAllRequest{IslandID: 1, SwampName: sw})
+							done = true
+						})
 					case "get":
 						k := pickKey()
 						if k == "" {
@@ -249,7 +380,7 @@ func runC16(t *testing.T, c Case) (res Result) {
 					if (op.K == "del" || op.K == "shift") && e.acked && e.removed {
 						removedKeys = append(removedKeys, sw+"|"+e.key)
 					}
-					if op.K != "get" {
+					if op.K != "get" && op.K != "getx" {
 						evs = append(evs, e)
 					}
 				}
